@@ -158,3 +158,217 @@ Proof.
           first [rewrite H1 | rewrite H2 | rewrite H3 | rewrite H4]);
   reflexivity.
 Qed.
+
+(* ------------------------------------------------------------------ conversion of definitions is demand-driven (final pass) *)
+Scheme node_ind2 := Induction for node Sort Prop
+  with nodes_ind2 := Induction for nodes Sort Prop.
+Combined Scheme node_nodes_ind from node_ind2, nodes_ind2.
+
+Section D.
+  Variable state : Type.
+  Variable st_in_clip : state -> bool.
+  Variable st_no_markers : state -> bool.
+  Variable conv_path : tag -> attrs -> conv_t state.
+  Variable conv_image : attrs -> conv_t state.
+  Variable conv_text : node -> conv_t state.
+  Variable conv_use : attrs -> option (option tag * attrs) -> conv_t state -> conv_t state -> conv_t state.
+  Variable conv_nested_svg : attrs -> conv_t state -> conv_t state.
+  Variable obj_bbox : ogroup -> option qrect.
+  Variables res_clip res_mask res_clip' res_mask' : string -> state -> option qrect -> cache -> option string * cache.
+  Variable res_filter : attrs -> state -> option qrect -> cache -> option (list string) * cache.
+  Variables Ac Am : string -> bool.
+  Hypothesis Hc : forall l, Ac l = true -> forall st bb c, res_clip' l st bb c = res_clip l st bb c.
+  Hypothesis Hm : forall l, Am l = true -> forall st bb c, res_mask' l st bb c = res_mask l st bb c.
+  Hypothesis Hext : callbacks_ext state conv_use conv_nested_svg.
+  Local Notation CE := (conv_elem state st_in_clip st_no_markers conv_path conv_image conv_text conv_use
+                          conv_nested_svg obj_bbox res_clip res_mask res_filter).
+  Local Notation CC := (conv_children state st_in_clip st_no_markers conv_path conv_image conv_text conv_use
+                          conv_nested_svg obj_bbox res_clip res_mask res_filter).
+  Local Notation CF := (conv_first_passing state st_in_clip st_no_markers conv_path conv_image conv_text conv_use
+                          conv_nested_svg obj_bbox res_clip res_mask res_filter).
+  Local Notation CE' := (conv_elem state st_in_clip st_no_markers conv_path conv_image conv_text conv_use
+                          conv_nested_svg obj_bbox res_clip' res_mask' res_filter).
+  Local Notation CC' := (conv_children state st_in_clip st_no_markers conv_path conv_image conv_text conv_use
+                          conv_nested_svg obj_bbox res_clip' res_mask' res_filter).
+  Local Notation CF' := (conv_first_passing state st_in_clip st_no_markers conv_path conv_image conv_text conv_use
+                          conv_nested_svg obj_bbox res_clip' res_mask' res_filter).
+  Local Notation CG := (convert_group state st_in_clip st_no_markers obj_bbox res_clip res_mask res_filter).
+  Local Notation CG' := (convert_group state st_in_clip st_no_markers obj_bbox res_clip' res_mask' res_filter).
+  Local Notation GS := (group_step_run state st_in_clip obj_bbox res_clip res_mask res_filter).
+  Local Notation GS' := (group_step_run state st_in_clip obj_bbox res_clip' res_mask' res_filter).
+  Local Notation GR := (group_run state st_in_clip obj_bbox res_clip res_mask res_filter).
+  Local Notation GR' := (group_run state st_in_clip obj_bbox res_clip' res_mask' res_filter).
+
+  Lemma group_step_dd tg a st force parent s x :
+    attrs_free Ac Am a = true -> GS' tg a st force parent s x = GS tg a st force parent s x.
+  Proof.
+    intros Hf. apply andb_prop in Hf. destruct Hf as [H1 H2].
+    destruct s; unfold group_step_run; try reflexivity.
+    - destruct (a_clip a) as [l|]; [rewrite (Hc l H1)|]; reflexivity.
+    - destruct (st_in_clip st); [reflexivity|]. destruct (a_mask a) as [l|]; [rewrite (Hm l H2)|]; reflexivity.
+  Qed.
+  Lemma group_run_dd tg a st force parent steps x :
+    attrs_free Ac Am a = true -> GR' tg a st force parent steps x = GR tg a st force parent steps x.
+  Proof.
+    intros Hf. revert x. induction steps as [|s r IH]; intros x; cbn [group_run]; [reflexivity|].
+    rewrite (group_step_dd tg a st force parent s x Hf). destruct (GS tg a st force parent s x); [apply IH | reflexivity].
+  Qed.
+  Lemma convert_group_dd tg a st force p c collect collect' :
+    attrs_free Ac Am a = true -> (forall c0 g0, collect' c0 g0 = collect c0 g0) ->
+    CG' tg a st force p c collect' = CG tg a st force p c collect.
+  Proof.
+    intros Hf Hcol. unfold convert_group. rewrite Hcol. destruct (collect c _) as [c1 g1]. apply group_run_dd, Hf.
+  Qed.
+
+  Definition ddP (n : node) : Prop :=
+    node_free Ac Am n = true ->
+    (forall top clip st c p, CE' n top clip st c p = CE n top clip st c p) /\
+    (forall top clip st c p, CC' (node_children n) top clip st c p = CC (node_children n) top clip st c p).
+  Definition ddQ (l : nodes) : Prop :=
+    nodes_free Ac Am l = true ->
+    (forall top clip st c p, CC' l top clip st c p = CC l top clip st c p) /\
+    (forall st c p, CF' l st c p = CF l st c p) /\
+    match l with
+    | NCons x _ => forall top clip st c p, CC' (node_children x) top clip st c p = CC (node_children x) top clip st c p
+    | NNil => True
+    end.
+
+  Lemma dd_both : (forall n, ddP n) /\ (forall l, ddQ l).
+  Proof.
+    apply node_nodes_ind.
+    - intros tg a ch IHch Hf. cbn [node_free] in Hf. apply andb_prop in Hf. destruct Hf as [Ha Hch].
+      destruct (IHch Hch) as (Hcc & Hcf & Hg). split; [|exact Hcc].
+      intros top clip st c p. destruct Hext as [Huse Hsvg].
+      rewrite !conv_elem_eq. unfold elem_body.
+      destruct tg as [t|]; [|destruct clip; reflexivity].
+      apply first_exit_ext. intros s. destruct s; try reflexivity.
+      + destruct t; try reflexivity. f_equal. apply Huse; [intros; apply Hcc|].
+        destruct ch as [|[? ? cch] ?]; [reflexivity|]. intros; apply Hg.
+      + destruct t; try reflexivity. destruct (has_passing ch); [|reflexivity].
+        f_equal. f_equal. apply convert_group_dd; [exact Ha | intros; apply Hcf].
+      + f_equal. f_equal. apply convert_group_dd; [exact Ha|]. intros c' g'.
+        destruct (tag_in t (if clip then clip_shape_tags else impl_shape_tags)); [reflexivity|].
+        destruct t; try reflexivity.
+        * destruct clip; [reflexivity|]. apply Hcc.
+        * destruct clip; [reflexivity|]. destruct top; [apply Hcc|]. apply Hsvg. intros; apply Hcc.
+    - intros _. repeat split.
+    - intros x IHx r IHr Hf. cbn [nodes_free] in Hf. apply andb_prop in Hf. destruct Hf as [Hx Hr].
+      destruct (IHx Hx) as [He Hch]. destruct (IHr Hr) as (Hcc & Hcf & _). split; [|split].
+      + intros top clip st c p. rewrite !conv_children_cons, He. destruct (CE x top clip st c p). apply Hcc.
+      + intros st c p. rewrite !conv_first_cons, He, Hcf. reflexivity.
+      + exact Hch.
+  Qed.
+
+  (* the converted tree and the cache depend on the clip-path / mask resolvers ONLY at the links the tree carries *)
+  Theorem demand_driven_elem n top clip st c p :
+    node_free Ac Am n = true -> CE' n top clip st c p = CE n top clip st c p.
+  Proof. intros H. apply (proj1 dd_both n H). Qed.
+  Theorem demand_driven_children l top clip st c p :
+    nodes_free Ac Am l = true -> CC' l top clip st c p = CC l top clip st c p.
+  Proof. intros H. apply (proj1 (proj2 dd_both l H)). Qed.
+End D.
+
+(* ... and the resolvers of Model/ConvCache.v reach a definition only through a link: an entry nobody links is never looked at *)
+Local Open Scope list_scope.
+Lemma def_lookup_skip (m1 m2 : defs_t) k dk s :
+  String.eqb s k = false -> def_lookup (m1 ++ (k, dk) :: m2) s = def_lookup (m1 ++ m2) s.
+Proof.
+  intros H. induction m1 as [|[k' d'] r IH]; cbn [app def_lookup]; [rewrite H; reflexivity|].
+  destruct (String.eqb s k'); [reflexivity | exact IH].
+Qed.
+Lemma def_lookup_In (m : defs_t) s d : def_lookup m s = Some d -> exists k, In (k, d) m.
+Proof.
+  induction m as [|[k' d'] r IH]; cbn [def_lookup]; [discriminate|].
+  destruct (String.eqb s k'); [intros E; injection E as ->; exists k'; left; reflexivity|].
+  intros E. destruct (IH E) as [k0 Hk]. exists k0. right. exact Hk.
+Qed.
+Lemma steps_run_ext {S : Type} (run run' : S -> renv -> renv + (option string * cache)) steps x :
+  (forall s y, run' s y = run s y) -> steps_run run' steps x = steps_run run steps x.
+Proof. intros H. revert x. induction steps as [|s r IH]; intros x; cbn [steps_run]; [reflexivity|]. rewrite H. destruct (run s x); [apply IH|reflexivity]. Qed.
+Lemma mask_once_ext fmt linked linked' d bbox c :
+  (forall l, d_link d = Some l -> forall c0, linked' l c0 = linked l c0) ->
+  mask_once fmt linked' d bbox c = mask_once fmt linked d bbox c.
+Proof.
+  intros H. unfold mask_once. apply steps_run_ext. intros s y. destruct s; try reflexivity.
+  unfold mask_step_run, run_linked. destruct (d_link d) as [l|]; [rewrite (H l eq_refl)|]; reflexivity.
+Qed.
+Lemma clip_once_ext fmt linked linked' d bbox c :
+  (forall l, d_link d = Some l -> forall c0, linked' l c0 = linked l c0) ->
+  clip_once fmt linked' d bbox c = clip_once fmt linked d bbox c.
+Proof.
+  intros H. unfold clip_once. apply steps_run_ext. intros s y. destruct s; try reflexivity.
+  unfold clip_step_run, run_linked. destruct (d_link d) as [l|]; [rewrite (H l eq_refl)|]; reflexivity.
+Qed.
+Definition no_link_to (k : string) (m : defs_t) : Prop := forall k' d', In (k', d') m -> d_link d' <> Some k.
+Lemma neq_eqb (a b : string) : a <> b -> String.eqb a b = false.
+Proof. intros H. destruct (String.eqb a b) eqn:E; [apply String.eqb_eq in E; contradiction | reflexivity]. Qed.
+Lemma mask_convert_in_unref fmt fuel m1 m2 k dk d bbox c :
+  no_link_to k (m1 ++ m2) -> d_link d <> Some k ->
+  mask_convert_in fmt fuel (m1 ++ (k, dk) :: m2) d bbox c = mask_convert_in fmt fuel (m1 ++ m2) d bbox c.
+Proof.
+  intros Hn. revert d c. induction fuel as [|f IH]; intros d c Hd; cbn [mask_convert_in]; [reflexivity|].
+  apply mask_once_ext. intros l Hl c0.
+  assert (El : String.eqb l k = false) by (apply neq_eqb; intros ->; apply Hd, Hl).
+  rewrite (def_lookup_skip m1 m2 k dk l El).
+  destruct (def_lookup (m1 ++ m2) l) as [d'|] eqn:E; [|reflexivity].
+  destruct (def_lookup_In _ _ _ E) as [k0 Hk]. apply IH. exact (Hn _ _ Hk).
+Qed.
+Lemma clip_convert_in_unref fmt fuel m1 m2 k dk d bbox c :
+  no_link_to k (m1 ++ m2) -> d_link d <> Some k ->
+  clip_convert_in fmt fuel (m1 ++ (k, dk) :: m2) d bbox c = clip_convert_in fmt fuel (m1 ++ m2) d bbox c.
+Proof.
+  intros Hn. revert d c. induction fuel as [|f IH]; intros d c Hd; cbn [clip_convert_in]; [reflexivity|].
+  apply clip_once_ext. intros l Hl c0.
+  assert (El : String.eqb l k = false) by (apply neq_eqb; intros ->; apply Hd, Hl).
+  rewrite (def_lookup_skip m1 m2 k dk l El).
+  destruct (def_lookup (m1 ++ m2) l) as [d'|] eqn:E; [|reflexivity].
+  destruct (def_lookup_In _ _ _ E) as [k0 Hk]. apply IH. exact (Hn _ _ Hk).
+Qed.
+Lemma res_mask_m_unref fmt (state : Type) m1 m2 k dk l (st : state) bb c :
+  no_link_to k (m1 ++ m2) -> not_key k l = true ->
+  res_mask_m fmt (m1 ++ (k, dk) :: m2) l st bb c = res_mask_m fmt (m1 ++ m2) l st bb c.
+Proof.
+  intros Hn Hl. unfold not_key in Hl. apply negb_true_iff in Hl. unfold res_mask_m. rewrite (def_lookup_skip m1 m2 k dk l Hl).
+  destruct (def_lookup (m1 ++ m2) l) as [d|] eqn:E; [|reflexivity].
+  destruct (def_lookup_In _ _ _ E) as [k0 Hk]. apply mask_convert_in_unref; [exact Hn | exact (Hn _ _ Hk)].
+Qed.
+Lemma res_clip_m_unref fmt (state : Type) m1 m2 k dk l (st : state) bb c :
+  no_link_to k (m1 ++ m2) -> not_key k l = true ->
+  res_clip_m fmt (m1 ++ (k, dk) :: m2) l st bb c = res_clip_m fmt (m1 ++ m2) l st bb c.
+Proof.
+  intros Hn Hl. unfold not_key in Hl. apply negb_true_iff in Hl. unfold res_clip_m. rewrite (def_lookup_skip m1 m2 k dk l Hl).
+  destruct (def_lookup (m1 ++ m2) l) as [d|] eqn:E; [|reflexivity].
+  destruct (def_lookup_In _ _ _ E) as [k0 Hk]. apply clip_convert_in_unref; [exact Hn | exact (Hn _ _ Hk)].
+Qed.
+Lemma sim_callbacks_ext :
+  callbacks_ext sim_state (fun _ _ _ _ _ c g => (c, g)) (fun _ cb st c g => cb st c g).
+Proof. split; intros; [reflexivity | apply H]. Qed.
+
+(* A mask (clipPath) definition that no element of the tree and no other definition links is never converted: with or
+   without it in the document, the converted tree and the cache are the same - whatever the definition contains. *)
+Theorem unreferenced_mask_no_influence fmt clips m1 m2 k dk l top clip st c p :
+  nodes_free any_key (not_key k) l = true -> no_link_to k (m1 ++ m2) ->
+  simc_children fmt clips (m1 ++ (k, dk) :: m2) l top clip st c p = simc_children fmt clips (m1 ++ m2) l top clip st c p.
+Proof.
+  intros Hf Hn. unfold simc_children.
+  apply (demand_driven_children sim_state ss_in_clip (fun _ => true) sim_path sim_image sim_text _ _ simc_bbox
+           (res_clip_m fmt clips) (res_mask_m fmt (m1 ++ m2)) (res_clip_m fmt clips) (res_mask_m fmt (m1 ++ (k, dk) :: m2))
+           sim_filter any_key (not_key k)).
+  - reflexivity.
+  - intros l0 H st0 bb c0. apply res_mask_m_unref; assumption.
+  - apply sim_callbacks_ext.
+  - exact Hf.
+Qed.
+Theorem unreferenced_clip_no_influence fmt masks m1 m2 k dk l top clip st c p :
+  nodes_free (not_key k) any_key l = true -> no_link_to k (m1 ++ m2) ->
+  simc_children fmt (m1 ++ (k, dk) :: m2) masks l top clip st c p = simc_children fmt (m1 ++ m2) masks l top clip st c p.
+Proof.
+  intros Hf Hn. unfold simc_children.
+  apply (demand_driven_children sim_state ss_in_clip (fun _ => true) sim_path sim_image sim_text _ _ simc_bbox
+           (res_clip_m fmt (m1 ++ m2)) (res_mask_m fmt masks) (res_clip_m fmt (m1 ++ (k, dk) :: m2)) (res_mask_m fmt masks)
+           sim_filter (not_key k) any_key).
+  - intros l0 H st0 bb c0. apply res_clip_m_unref; assumption.
+  - reflexivity.
+  - apply sim_callbacks_ext.
+  - exact Hf.
+Qed.
